@@ -38,7 +38,12 @@ type ProviderCache struct {
 	sources []ProviderSource
 	ttl     time.Duration
 
-	seq       uint
+	seq uint
+	// pubSeq is the seq of the last refresh whose results were published to
+	// readers. A refresh that is canceled part-way updates write entries
+	// without publishing them; they are published by the next refresh that
+	// completes.
+	pubSeq    uint
 	write     map[peer.ID]*cacheInfo
 	writeLock chan struct{}
 
@@ -341,11 +346,13 @@ func (pc *ProviderCache) Refresh(ctx context.Context) error {
 				// Store nil in updates to override anything in main map.
 				updates[pid] = nil
 			}
-		} else if cinfo.updateSeq == seq {
-			// Address updated, update read-only data.
+		} else if cinfo.updateSeq > pc.pubSeq {
+			// Address updated, in this refresh or in an earlier one that was
+			// canceled before publishing, update read-only data.
 			updates[pid] = apiToCacheInfo(cinfo.provider)
 		}
 	}
+	pc.pubSeq = seq
 
 	// If the update map is small relative to the main map, do not generate a
 	// new main map yet.
